@@ -24,6 +24,33 @@ class Unconvertible(object):
         raise RuntimeError("cannot serialise")
 
 
+# Handler tables a server Config may carry (C20: handlers for built-in types are
+# used for every object of exactly that type, at any depth, their return value
+# verbatim).  They only ever apply to what goes through jsonclass.dump: the
+# result of a call - never the id, the error object or the envelope.
+HANDLER_TABLES = {
+    "int-tag": {int: lambda v, *a: "i%d" % v},
+    "bigint-str": {int: lambda v, *a: str(v) if abs(v) >= 2 ** 53 else v},
+    "float-round": {float: lambda v, *a: round(v, 3)},
+    "str-tag": {str: lambda v, *a: "s:" + v},
+    "list-len": {list: lambda v, *a: {"n": len(v)}},
+    "dict-keys": {dict: lambda v, *a: sorted(v)},
+    "none-str": {type(None): lambda v, *a: "null"},
+    "bool-int": {bool: lambda v, *a: int(v)},
+}
+
+
+def apply_handlers(table, value):
+    f = table.get(type(value))
+    if f is not None:
+        return f(value)
+    if isinstance(value, list):
+        return [apply_handlers(table, v) for v in value]
+    if isinstance(value, dict):
+        return dict((k, apply_handlers(table, v)) for k, v in value.items())
+    return value
+
+
 class Registry(object):
     """Recording callables registered on the dispatcher under test"""
 
@@ -262,11 +289,21 @@ def model_entry(obj, server_version, registry, mode, exp):
         exp.kinds.append("call:%d" % payload[0])
 
 
-def model(text, server_version, registry, mode):
+def model(text, server_version, registry, mode, handlers=None):
     """
     Expected behaviour of the dispatcher for the request text.
     Raises Skip for texts outside the domain (R12).
     """
+    exp = _model(text, server_version, registry, mode)
+    if handlers and registry.jsonclass:
+        table = HANDLER_TABLES[handlers]
+        for r in exp.responses:
+            if r["kind"] == "result":
+                r["value"] = apply_handlers(table, r["value"])
+    return exp
+
+
+def _model(text, server_version, registry, mode):
     exp = Expected()
     if text == "":
         # R1
@@ -462,18 +499,20 @@ def compare_log(registry, exp):
 # Running one body against a fresh real dispatcher
 
 
-def make_dispatcher(version, jsonclass, mode, registry=None, config=None):
+def make_dispatcher(version, jsonclass, mode, registry=None, config=None, handlers=None):
     from jsonrpclib.SimpleJSONRPCServer import SimpleJSONRPCDispatcher
     from jsonrpclib.config import Config
 
     cfg = config or Config(version=version, use_jsonclass=jsonclass)
+    if handlers:
+        cfg.serialize_handlers.update(HANDLER_TABLES[handlers])
     registry = registry or Registry(jsonclass=jsonclass)
     disp = SimpleJSONRPCDispatcher(config=cfg)
     dm = registry.install(disp, mode)
     return disp, dm, registry, cfg
 
 
-def run_body(text, version, jsonclass, mode, exc_factory=None):
+def run_body(text, version, jsonclass, mode, exc_factory=None, handlers=None):
     """
     -> (out, exp, registry, problems).  problems holds every Violation of
     C01-C05/C13 clauses found on this body; a raising dispatcher is C02.
@@ -481,8 +520,8 @@ def run_body(text, version, jsonclass, mode, exc_factory=None):
     from .core import Violation
 
     registry = Registry(jsonclass=jsonclass, exc_factory=exc_factory)
-    exp = model(text, version, registry, mode)
-    disp, dm, registry, cfg = make_dispatcher(version, jsonclass, mode, registry)
+    exp = model(text, version, registry, mode, handlers)
+    disp, dm, registry, cfg = make_dispatcher(version, jsonclass, mode, registry, handlers=handlers)
     try:
         out = disp._marshaled_dispatch(text, dm)
     except Exception as ex:
